@@ -572,4 +572,50 @@ theorem advance_brace_to_end (K sK : Bytes) (post : List (Bytes × JsonVal)) (hK
   simp only [hc2]
   simp
 
+
+theorem serialize_obj_cons (kvs : List (Bytes × JsonVal)) :
+    serialize (.obj kvs) = 0x7b :: (serObj kvs ++ [0x7d]) := by simp [serialize]
+
+/-- **remove of an existing member** (first, middle or last): the splice deletes the member and exactly
+one adjacent comma -/
+theorem iRemove_flat (pre : List (Bytes × Bytes)) (K sK : Bytes) (post : List (Bytes × JsonVal))
+    (hpre : FlatPre K pre) (hK : keyScans K) (hs : valScans sK) :
+    iRemove (serialize (.obj (membersFrom pre K sK post))) (keyLoc .startOfValue K) =
+      .ok (serialize (.obj (pre.map mem ++ post)), true) := by
+  obtain ⟨c, hcur, hcase⟩ := scan_remove_cursor pre K sK post hpre hK
+  unfold iRemove
+  rw [hcur]
+  have hkl : (keyLoc .startOfValue K).withState .endOfValue = keyLoc .endOfValue K := rfl
+  rcases hcase with ⟨hp, rfl⟩ | ⟨hp, dp, kp, hkp, rfl, htext⟩
+  · -- first member: the cursor stands just after `{`
+    subst hp
+    obtain ⟨D, hadv⟩ := advance_brace_to_end K sK post hK hs
+    simp only [hkl, hadv]
+    cases post with
+    | nil =>
+      simp [afterBrace, atEnd, afterVal, Scanner.cur, prefixOf, restOf, doneTail, serialize, serObj]
+    | cons kv t =>
+      have hser : serialize (.obj (([] : List (Bytes × Bytes)).map mem ++ kv :: t)) = 0x7b :: (serObj (kv :: t) ++ [0x7d]) := by
+        simp [serialize]
+      rw [hser]
+      simp [afterBrace, atEnd, afterVal, Scanner.cur, Scanner.pass, prefixOf, restOf, doneTail]
+      cases hh : serObj (kv :: t) ++ [0x7d] with
+      | nil => simp at hh
+      | cons a r => simp [doneTail]
+  · -- a later member: the cursor stands at the end of the previous member's value
+    obtain ⟨D, hadv⟩ := advance_prev_to_end dp kp K sK post hkp hK hs
+    simp only [hkl, hadv]
+    have hni : ¬ ((atEnd dp kp ((K, JsonVal.lit sK) :: post) []).path.st = .objectInitial ∨
+        (atEnd dp kp ((K, JsonVal.lit sK) :: post) []).path.st = .arrayInitial) := by simp [atEnd]
+    simp only [hni, false_and, if_false]
+    -- the text: both documents share everything up to the previous member's value
+    have h1 := ser_core ((K, .lit sK) :: post) [] pre hp
+    have h2 := ser_core post [] pre hp
+    have hdoc : serialize (.obj (membersFrom pre K sK post)) = (0x7b :: preCore pre) ++ afterVal ((K, .lit sK) :: post) [] := by
+      simp only [serialize_obj_cons, membersFrom]; simp [h1]
+    have hdp : dp.reverse = 0x7b :: preCore pre := List.append_cancel_right (htext.trans hdoc)
+    have hnew : serialize (.obj (pre.map mem ++ post)) = (0x7b :: preCore pre) ++ afterVal post [] := by
+      simp only [serialize_obj_cons]; simp [h2]
+    simp only [prefixOf, restOf, atEnd, hdp, hnew, doneTail_afterVal]
+
 end DoltVerif.JsonDoc
